@@ -146,6 +146,16 @@ class Rewriter(ast.NodeTransformer):
                         names.add(t.id)
         return sorted(names)
 
+    def _has_break(self, stmts):
+        """a `break` that leaves this loop (not one of a nested loop)"""
+        def walk(n):
+            if isinstance(n, ast.Break):
+                return True
+            if isinstance(n, (ast.For, ast.While, ast.FunctionDef, ast.Lambda, ast.ClassDef)):
+                return any(walk(x) for x in getattr(n, "orelse", []))
+            return any(walk(x) for x in ast.iter_child_nodes(n))
+        return any(walk(b) for b in stmts)
+
     def _cut(self, node, is_for):
         q, k = self._loop_key()
         key = (q, k)
@@ -175,8 +185,9 @@ class Rewriter(ast.NodeTransformer):
             for n in code:
                 ast.copy_location(n, node)
             return code
+        inplace_names = self._inplace(node.body)
         pre = ast.parse(
-            f"{L} = vcx_loop({lid!r}, {tuple(mods)!r})\n"
+            f"{L} = vcx_loop({lid!r}, {tuple(mods)!r}, {tuple(inplace_names)!r})\n"
             f"{L}.begin(None, locals())\n"
             f"{H} = {L}.havoc(locals())\n"
             + "".join(f"if {n!r} in {H}: {n} = {H}[{n!r}]\n" for n in mods)
@@ -185,12 +196,18 @@ class Rewriter(ast.NodeTransformer):
             pre[1].value.args[0] = node.iter     # L.begin(<iterable>, locals())
         once = ast.For(target=ast.Name("vcx_once", ast.Store()), iter=ast.Tuple([ast.Constant(0)], ast.Load()),
                        body=node.body, orelse=ast.parse(f"{L}.end(locals())").body, type_comment=None)
+        # reached only when the body left by `break`: a contract that merges break exits proves its invariant there and ends the
+        # path (the continuation `via_break` below stands for all of them); other contracts just go on after the loop
+        broke = ast.parse(f"{L}.broke(locals())").body
         if is_for:
             test = ast.parse(f"{L}.iterate(locals())").body[0].value
             bind = ast.Assign(targets=[node.target], value=ast.parse(f"{L}.target()").body[0].value)
-            ifnode = ast.If(test=test, body=[bind, once], orelse=ast.parse(f"{L}.exit(locals())").body + node.orelse)
+            ifnode = ast.If(test=test, body=[bind, once] + broke, orelse=ast.parse(f"{L}.exit(locals())").body + node.orelse)
         else:
-            ifnode = ast.If(test=node.test, body=[once], orelse=ast.parse(f"{L}.exit(locals())").body + node.orelse)
+            ifnode = ast.If(test=node.test, body=[once] + broke, orelse=ast.parse(f"{L}.exit(locals())").body + node.orelse)
+        if self._has_break(node.body) and not node.orelse:
+            # if <engine choice: leave as by a break, knowing only the invariant>: pass   elif <test>: ...   else: ...
+            ifnode = ast.If(test=ast.parse(f"{L}.via_break()").body[0].value, body=[ast.Pass()], orelse=[ifnode])
         out = pre + [ifnode]
         for n in out:
             ast.copy_location(n, node)
